@@ -31,6 +31,7 @@ struct Acc {
     units_common: u64,
     units_undefined_last: u64,
     units_failing_mid_message: u64,
+    empty_units_mid_message: u64,
     msgs_empty: u64,
     msgs_trailing_semicolon: u64,
     by_delivery: BTreeMap<&'static str, u64>,
@@ -48,8 +49,8 @@ struct SeqMsg {
     desc: String,
 }
 
-const EXEC_FAULTS: [Fault; 7] =
-    [Fault::WrongKind, Fault::TooFew, Fault::TooMany, Fault::WrongType, Fault::OutOfRange, Fault::NotBool, Fault::Handler];
+const EXEC_FAULTS: [Fault; 8] =
+    [Fault::WrongKind, Fault::TooFew, Fault::TooMany, Fault::WrongType, Fault::OutOfRange, Fault::NotBool, Fault::Handler, Fault::InnerNode];
 
 fn gen_message(gen: &Gen, acc: &mut Acc, rng: &mut Rng, max_units: usize) -> SeqMsg {
     match rng.below(12) {
@@ -102,6 +103,26 @@ fn gen_message(gen: &Gen, acc: &mut Acc, rng: &mut Rng, max_units: usize) -> Seq
         }
         units.push(u);
     }
+    // sometimes an empty unit (";;" or "; ;") in the middle: the statement does not say whether
+    // it is skipped or refused, but it has no header, so it must not change the path: either
+    // the message is refused there (one error, nothing after it runs) or the units after it
+    // resolve exactly as if it were not there
+    let mut empty_at: Option<usize> = None;
+    if units.len() >= 2 && rng.chance(1, 8) {
+        let k = rng.range(1, units.len() - 1);
+        let mut e = units[0].clone();
+        e.abs = false;
+        e.mnems = vec![];
+        e.raw_header = Some(if rng.chance(1, 2) { vec![] } else { vec![b' '] });
+        e.query = false;
+        e.lits = vec![];
+        e.expects = vec![];
+        e.fault = None;
+        e.target = None;
+        units.insert(k, e);
+        empty_at = Some(k);
+        acc.empty_units_mid_message += 1;
+    }
     // sometimes a last unit that resolves to nothing from the current path
     if rng.chance(1, 5) {
         if let Some(u) = gen.undefined_rel_unit(&path, rng) {
@@ -118,9 +139,20 @@ fn gen_message(gen: &Gen, acc: &mut Acc, rng: &mut Rng, max_units: usize) -> Seq
     st.seed = rng.next();
     st.case = rng.below(3) as u8;
     // a unit counts as failing if it is labelled faulty or its declaration's handler fails
-    let units: Vec<(Vec<Expect>, bool)> =
-        ast.units.iter().map(|u| (u.expects.clone(), u.fault.is_some() || u.expects.iter().any(|e| matches!(e, Expect::Err(_))))).collect();
-    SeqMsg { bytes: ast.render(&st), expects: ast.expects(), alts: MsgExpect::from_units(&units), desc: format!("{} units{}", ast.units.len(), if trailing { " + ';'" } else { "" }) }
+    let units: Vec<(Vec<Expect>, Vec<Expect>, bool)> = ast
+        .units
+        .iter()
+        .enumerate()
+        .map(|(k, u)| {
+            if Some(k) == empty_at {
+                (vec![], vec![Expect::Err(crate::wl::ErrSpec::Any)], true)
+            }
+            else {
+                (u.expects.clone(), u.expects.clone(), u.fault.is_some() || u.expects.iter().any(|e| matches!(e, Expect::Err(_))))
+            }
+        })
+        .collect();
+    SeqMsg { bytes: ast.render(&st), expects: ast.expects(), alts: MsgExpect::from_units3(&units), desc: format!("{} units{}", ast.units.len(), if trailing { " + ';'" } else { "" }) }
 }
 
 fn shard(ctx: &Ctx, ifaces: &[&'static IfaceDesc], shard: usize, cases: u64) -> Acc {
@@ -299,6 +331,7 @@ pub fn run(ctx: &Ctx) -> PropResult {
     let mut trees = HashSet::new();
     let (mut rel, mut abs, mut com, mut und, mut emp, mut tr, mut ord, mut pend) = (0, 0, 0, 0, 0, 0, 0, 0);
     let mut failing_mid = 0;
+    let mut empty_mid = 0;
     for acc in accs {
         distinct.extend(acc.distinct);
         trees.extend(acc.trees);
@@ -310,6 +343,7 @@ pub fn run(ctx: &Ctx) -> PropResult {
         com += acc.units_common;
         und += acc.units_undefined_last;
         failing_mid += acc.units_failing_mid_message;
+        empty_mid += acc.empty_units_mid_message;
         emp += acc.msgs_empty;
         tr += acc.msgs_trailing_semicolon;
         ord += acc.order_checked;
@@ -330,6 +364,7 @@ pub fn run(ctx: &Ctx) -> PropResult {
     res.cov("common_units", com);
     res.cov("undefined_relative_last_units", und);
     res.cov("units_failing_at_execution_followed_by_more_units", failing_mid);
+    res.cov("empty_units_in_the_middle_of_a_message", empty_mid);
     res.cov("empty_or_whitespace_messages", emp);
     res.cov("messages_ending_in_semicolon", tr);
     res.cov("run_logs_order_checked", ord);
